@@ -50,12 +50,16 @@ def run(ch, prog, chunk, bytewise=False, data=None):
                     for c in (rest, 1, 2, chunk - 1, chunk, chunk + 1):
                         if 0 < c <= rest and c not in sizes:
                             sizes.append(c)
-                    # last option: everything that is left arrives together with the EOF
-                    c = ch.choose(len(sizes) + 1, "seg")
-                    if c == len(sizes):
+                    # last options: everything that is left arrives together with the EOF / with a connection reset
+                    c = ch.choose(len(sizes) + 2, "seg")
+                    if c >= len(sizes):
                         sock.feed(data[st["pos"]:])
                         st["pos"] = len(data)
-                        sock.feed_eof()
+                        if c == len(sizes):
+                            sock.feed_eof()
+                        else:
+                            import errno
+                            sock.feed_error(ConnectionResetError(errno.ECONNRESET, "reset by peer"))
                         st["eof"] = True
                         w.pump()
                         return True
@@ -158,7 +162,10 @@ def run_small(ch, sizes, kinds, mbs, chunk):
                 deliver()           # default: the peer is ahead of the reader
             buf = bytearray(n)
             try:
-                f = s.read_bytes(n) if kind == "rb" else s.read_into(buf)
+                if kind == "rbp":
+                    f = s.read_bytes(100 * mbs, partial=True)       # "whatever is there": never more than the buffer holds
+                else:
+                    f = s.read_bytes(n) if kind == "rb" else s.read_into(buf)
             except Exception as e:
                 problems.append(("raised", "read %d (%s %d at offset %d) raised %s" % (i, kind, n, p, type(e).__name__)))
                 break
@@ -174,7 +181,12 @@ def run_small(ch, sizes, kinds, mbs, chunk):
                                  "max_buffer_size %d" % (i, kind, n, p, f.exception(), getattr(f.exception(), "real_error", None),
                                                         s._read_buffer_size, mbs)))
                 break
-            got = f.result() if kind == "rb" else bytes(buf[:f.result()])
+            got = f.result() if kind in ("rb", "rbp") else bytes(buf[:f.result()])
+            if kind == "rbp":
+                if not (1 <= len(got) <= mbs) or got != data[p:p + len(got)]:
+                    problems.append(("contract", "read %d (partial read at offset %d) returned %r, stream has %r" % (i, p, got, data[p:p + 12])))
+                    break
+                n = len(got)
             if got != data[p:p + n]:
                 problems.append(("contract", "read %d (%s %d at offset %d) returned %r, stream has %r" % (i, kind, n, p, got, data[p:p + n])))
                 break
@@ -354,7 +366,7 @@ class C11(Check):
             for s in range(8):
                 parts.append((2 if tier == "quick" else 3, 2, 4, s, 8, di))
         for ci in range(len(SMALL_CFG)):
-            for kinds in (("rb",), ("ri",), ("rb", "ri")):
+            for kinds in (("rb",), ("ri",), ("rb", "ri"), ("rbp", "rb")):
                 parts.append(("small", ci, kinds, 2 if tier == "quick" else 3))
         return parts
 
@@ -384,6 +396,15 @@ class C11(Check):
                         st.violation("small-buffer:error-log", "log %r" % (errs[:2],),
                                      {"small": [ci, list(kinds), list(sizes)], "choices": ch.choices()})
                 devex.explore(lambda ch: run_small(ch, sizes, kinds, mbs, chunk), bound=D, on_exec=on_exec)
+        if mbs % 2 == 0 and kinds in (("rb",), ("ri",)):
+            # reads of exactly max_buffer_size while the sender is ahead (every recv fills a whole chunk): the buffer
+            # reaches the limit exactly, which is not an overflow
+            problems, errs, nreads = run_small(devex.Chooser(), (mbs,), kinds, mbs, chunk)
+            st.ev()
+            st.states.add(h(("small-exact", ci, kinds)))
+            for sig, msg in problems:
+                st.violation("small-buffer:exactly-max_buffer_size:" + sig, "max_buffer_size=%d read_chunk_size=%r reads of %d bytes, "
+                             "sender ahead: %s" % (mbs, chunk, mbs, msg), {"small": [ci, list(kinds), [mbs]], "choices": []})
 
     def run_partition(self, part, tier, st):
         if part[0] == "small":
